@@ -992,6 +992,15 @@ pub async fn commit_compaction(
     // If we aren't using stable row ids, then we need to remap indices.
     let needs_remapping = !dataset.manifest.uses_stable_row_ids() && !defer_index_remap;
 
+    // The rewritten files reflect the table as of the version the tasks were executed at, which
+    // can be older than the current version of this handle (e.g. when the tasks are committed
+    // in several rounds).  Conflicts must be checked against everything committed since then.
+    let read_version = completed_tasks
+        .iter()
+        .map(|task| task.read_version)
+        .min()
+        .unwrap_or(dataset.manifest.version);
+
     let mut rewrite_groups = Vec::with_capacity(completed_tasks.len());
     let mut metrics = CompactionMetrics::default();
 
@@ -1060,7 +1069,7 @@ pub async fn commit_compaction(
     };
 
     let transaction = Transaction::new(
-        dataset.manifest.version,
+        read_version,
         Operation::Rewrite {
             groups: rewrite_groups,
             rewritten_indices,
